@@ -26,7 +26,7 @@ def fault_case(rng):
     """prefix words, one faulty construct, words in the same paragraph, blank line, tail words"""
     w = words(rng, 9)
     pre = ' '.join(w[:3]) + rng.choice([' ', '\n', '\n\n'])
-    kind = rng.choice(['maths', 'maths2', 'display', 'arg', 'optarg', 'verbatim', 'verb', 'skip', 'accent', 'input'])
+    kind = rng.choice(['maths', 'maths2', 'display', 'arg', 'optarg', 'verbatim', 'verb', 'skip', 'accent', 'input', 'badfile'])
     same = ' '.join(w[3:6])
     tail = '\n\n' + ' '.join(w[6:9]) + rng.choice(['', '\n'])
     must = set()
@@ -68,6 +68,11 @@ def fault_case(rng):
         fault = rng.choice(["\\'1", '\\"{2}', '\\^ 3', '\\c{?}'])
         src = pre + fault + ' ' + same + tail
         pos = len(pre); must = set(w); msg = 'text-mode accent for non-letter'
+    elif kind == 'badfile':
+        fault = '\\LTinput{latin1.tex}'
+        src = pre + fault + ' ' + same + tail
+        pos = len(pre); must = set(w); msg = 'could not read file'
+        badfile = {'latin1.tex': {'hex': rng.choice(['e4f6fc20', 'fffe4100', '5c6e6577636f6d6d616e647b5c717d7be97d0a', 'c3'])}}
     else:
         fault = '\\LTinput{nofile.tex}'
         src = pre + fault + ' ' + same + tail
@@ -78,7 +83,9 @@ def fault_case(rng):
         src = src[:cut]
         must = set(w[:3])
     files = None
-    if rng.random() < 0.25:
+    if kind == 'badfile':
+        files = dict(badfile)
+    elif rng.random() < 0.25:
         # definitions read from a file earlier in the document (also an empty file) must not disturb error reporting
         inp = '\\LTinput{e.tex}' + rng.choice(['\n', ' ', '\n\n'])
         src = inp + src
@@ -88,6 +95,8 @@ def fault_case(rng):
             'fault_pos': pos, 'must': sorted(must), 'msg': msg, 'files': files}
 
 def judge_fault(case, res):
+    if res['outcome'] == 'crash':
+        return ['the problem (%s) ends the filter in %s instead of a diagnostic and an error mark' % (case['msg'], res.get('exc'))]
     if res['outcome'] != 'ok':
         return []
     src, txt, pos = case['src'], res['txt'], res['pos']
